@@ -76,7 +76,9 @@ def gen_sched(rng, info, force=None):
     sched = {'seed': rng.randrange(1 << 40), 'net': gen_net(rng), 'stalls': [],
              # the default text encoding of the machine the table manager runs on (what a bare
              # open(path, 'w') uses): UTF-8 mostly, now and then a legacy one
-             'fs_encoding': rng.choice((None, None, None, None, None, 'ascii', 'latin-1'))}
+             'fs_encoding': rng.choice((None, None, None, None, None, 'ascii', 'latin-1')),
+             # the output path already holds an older, much longer log
+             'stale_log': rng.random() < 0.3}
     # Threads the tree under test starts besides its connection threads (a writer thread, pool
     # workers, a timer) are where a refactoring adds new concurrency: when the pilot run had any,
     # half of the schedules are aimed at them -- either they are starved (they run, in a shuffled
